@@ -149,6 +149,29 @@ func (e *Exec) loopEnv(st *State, n ast.Node, inner token.Pos) *SpecEnv {
 		}
 		return base(name, s)
 	}
+	// a name nothing else resolves (not a variable, ghost, let or package member): most often the loop
+	// counter was renamed. The invariant is then read with the loop's own counter in its place (if that
+	// reading is wrong the invariant fails - an invariant is never assumed before it has been proved).
+	env.lastResort = func(name string, s *State) (Value, bool) {
+		ctr := loopCounter(n)
+		if ctr == nil {
+			return nil, false
+		}
+		obj := pk.TypesInfo.Defs[ctr]
+		if obj == nil {
+			return nil, false
+		}
+		c, ok := e.cells[obj]
+		if !ok {
+			return nil, false
+		}
+		v, ok := s.store[c]
+		if ok && !e.renamed[name] {
+			e.renamed[name] = true
+			e.warnings = append(e.warnings, "loop invariant names `"+name+"`, which does not exist: read as the loop counter `"+ctr.Name+"`")
+		}
+		return v, ok
+	}
 	return env
 }
 
@@ -656,4 +679,23 @@ func (e *Exec) yieldCond(st *State, x *ast.IfStmt) []Outcome {
 		}
 	}
 	return outs
+}
+
+// loopCounter: the single variable a for statement declares in its init clause, or the key of a range.
+func loopCounter(n ast.Node) *ast.Ident {
+	switch x := n.(type) {
+	case *ast.ForStmt:
+		if as, ok := x.Init.(*ast.AssignStmt); ok && as.Tok == token.DEFINE && len(as.Lhs) == 1 {
+			if id, ok := as.Lhs[0].(*ast.Ident); ok {
+				return id
+			}
+		}
+	case *ast.RangeStmt:
+		if x.Tok == token.DEFINE {
+			if id, ok := x.Key.(*ast.Ident); ok && id.Name != "_" {
+				return id
+			}
+		}
+	}
+	return nil
 }
